@@ -207,6 +207,10 @@ fn panic_sig(msg: &str) -> String {
 }
 
 pub fn judge_total(rt: &tokio::runtime::Runtime, r: &mut Report, case: &TCase) {
+    judge_with_session_check(r, |rep| judge_total_inner(rt, rep, case));
+}
+
+fn judge_total_inner(rt: &tokio::runtime::Runtime, r: &mut Report, case: &TCase) {
     if case.req.build().is_none() {
         r.count("unbuildable_requests", 1);
         return;
@@ -221,6 +225,10 @@ pub fn judge_total(rt: &tokio::runtime::Runtime, r: &mut Report, case: &TCase) {
         CallOutcome::Hang => r.violated(format!("C04/no-progress/{opc}"), wit()),
         CallOutcome::Unbuildable => {}
         CallOutcome::Response(resp) => {
+            if resp.bytes_lost_to_the_body_contract > 0 {
+                r.violated(format!("C04/response-body-continues-after-declaring-its-end/{opc}"), wit());
+                return;
+            }
             if let Some(e) = &resp.body_error {
                 // a failing response body: the request had a problem the adapter found too late
                 r.violated(format!("C04/response-body-error/{opc}/{}", panic_sig(e)), wit());
@@ -615,6 +623,10 @@ pub fn run(ctx: &RunCtx) -> i32 {
     let tot = par_run(ctx.workers, n.div_ceil(per), |j, r| {
         let rt = new_runtime();
         let mut g = Rng::new(derive_seed(ctx.seed, "C04/total", j));
+        // every other job sends all its requests through one reused service instance per configuration
+        if j % 2 == 1 {
+            session_begin();
+        }
         for i in 0..per {
             let (operator, req) = if i % 5 == 4 {
                 random_request(&mut g)
@@ -634,6 +646,7 @@ pub fn run(ctx: &RunCtx) -> i32 {
             }
             judge_total(&rt, r, &case);
         }
+        r.count("requests_served_by_a_reused_service_instance", session_end());
     });
     total.merge(tot);
     finish(ctx, &meta, &total)
